@@ -20,6 +20,9 @@ partial def toStmt : SExp → Option Stmt
   | .list [.atom "thr", .atom e] => e.toNat?.map Stmt.throw_
   | .list [.atom "sir"] => some .stopIfRequested
   | .list [.atom "rs", .atom k] => k.toNat?.map Stmt.resched
+  | .list [.atom "sirs"] => some .stopIfRequestedS
+  | .list [.atom "pw", .atom i] => i.toNat?.map (fun i => .awaitPlain i false)
+  | .list [.atom "tpw", .atom i] => i.toNat?.map (fun i => .awaitPlain i true)
   | _ => none
 partial def toProg : SExp → Option Prog
   | .list xs => xs.mapM toStmt
@@ -36,6 +39,12 @@ def parseSpec (s : String) : Option (Nat × LeafSpec) :=
       if k = "i" || k = "ia" then do
         let o ← parseOutcome a
         pure (i, { kind := .inline o, affine := affine })
+      else if k = "r" || k = "b0" || k = "h0" then do
+        -- plain awaitables that complete without suspending (ready / bool false / handle = the awaiting coroutine)
+        let o ← parseOutcome a
+        pure (i, { kind := .inline o, affine := false })
+      else if k = "b1" || k = "h1" || k = "vd" then
+        pure (i, { kind := .pending none, affine := false })
       else if k = "p" || k = "pa" then
         if a = "ign" then pure (i, { kind := .pending none, affine := affine })
         else do
@@ -78,6 +87,8 @@ def renderOut : Out → String
   | .reg f a => s!"rg{f}:{a}"
   | .leafStart i st => s!"ls{i}:{if st then 1 else 0}"
   | .leafStop i => s!"lp{i}"
+  | .plainStart i => s!"ps{i}"
+  | .tokRegs n => s!"cb{n}"
   | .localsDead f => s!"ld{f}"
   | .cleanup f a => s!"cl{f}:{a}"
   | .cleanupSched k => s!"cq{k}"
@@ -111,6 +122,7 @@ def resolve (s : St) : SEv → Option Ev
   | .cur o =>
     match s.ctl with
     | .waitLeaf i => some (.complete i o)
+    | .waitPlain i => some (.complete i o)
     | .waitCleanup i _ => some (.complete i (.value 0))
     | _ => none
 
@@ -132,6 +144,7 @@ def drain (specs : Nat → LeafSpec) : Nat → St → List String → St × List
       if !s.queue.isEmpty then some .run
       else match s.ctl with
         | .waitLeaf i => some (.complete i .done)
+        | .waitPlain i => some (.complete i (.value 0))
         | .waitCleanup i _ => some (.complete i (.value 0))
         | _ => none
     match next with
@@ -152,7 +165,7 @@ def runCase (line : String) : String :=
         match (words evs).mapM parseSEv with
         | some evl =>
           let m := mode.trimAscii.toString
-          let s0 := St.init prog (!(m.startsWith "man")) (!(m.endsWith ":u"))
+          let s0 := St.init prog (!(m.startsWith "man")) (!(m.endsWith ":u")) (m.endsWith ":w")
           let (s1, r1) := runScript specs s0 evl []
           let (s2, r2) := drain specs 1000 s1 []
           let started := s2.ctl != .idle
